@@ -12,12 +12,22 @@
 
 void CDNS::GzipCborOutputWriter::write(const char* p, std::size_t size)
 {
-    m_gzip.next_in = reinterpret_cast<const unsigned char*>(p);
-    m_gzip.avail_in = size;
+    // Compress the input in slices: write_gzip() sizes its scratch buffer from the slice length
+    // and zlib counts the available bytes in 32 bits
+    const std::size_t max_slice = 512 * 1024;
 
-    // Loop until all input data is compressed and written to output
-    while (m_gzip.avail_in > 0) {
-        write_gzip(size, Z_NO_FLUSH);
+    while (size > 0) {
+        std::size_t slice = size < max_slice ? size : max_slice;
+        m_gzip.next_in = reinterpret_cast<const unsigned char*>(p);
+        m_gzip.avail_in = slice;
+
+        // Loop until all input data is compressed and written to output
+        while (m_gzip.avail_in > 0) {
+            write_gzip(slice, Z_NO_FLUSH);
+        }
+
+        p += slice;
+        size -= slice;
     }
 }
 
@@ -67,12 +77,21 @@ int CDNS::GzipCborOutputWriter::write_gzip(std::size_t in_size, int action)
 
 void CDNS::XzCborOutputWriter::write(const char* p, std::size_t size)
 {
-    m_lzma.next_in = reinterpret_cast<const uint8_t*>(p);
-    m_lzma.avail_in = size;
+    // Compress the input in slices: write_lzma() sizes its scratch buffer from the slice length
+    const std::size_t max_slice = 512 * 1024;
 
-    // Loop until all input data is compressed and written to output
-    while (m_lzma.avail_in > 0) {
-        write_lzma(size, LZMA_RUN);
+    while (size > 0) {
+        std::size_t slice = size < max_slice ? size : max_slice;
+        m_lzma.next_in = reinterpret_cast<const uint8_t*>(p);
+        m_lzma.avail_in = slice;
+
+        // Loop until all input data is compressed and written to output
+        while (m_lzma.avail_in > 0) {
+            write_lzma(slice, LZMA_RUN);
+        }
+
+        p += slice;
+        size -= slice;
     }
 }
 
